@@ -107,6 +107,17 @@ def check(prop, tier, seed, out):
         e2e, _, _ = treecheck.run_jobs(prop, jobs, out, want={prop})
         out.extra["end_to_end"] = e2e
         out.require("e2e_executions", e2e.get("executions", 0), 150)
+    if prop == "C19":
+        # end-to-end slice: tuning as the real runner drives it - one benchmark after another in one process, argument cases and several
+        # thread counts per benchmark, each of which starts again at one iteration (the loop driver builds a fresh context per run, the
+        # runner need not) - judged on the calls each (case, thread count) made under the scripted clock
+        from . import treecheck
+        jobs = [j for j in treecheck.make_jobs("C15", "quick", seed + 500) if j[1].intent.action == "bench"]
+        if tier == "quick":
+            jobs = jobs[:200]
+        e2e, _, _ = treecheck.run_jobs(prop, jobs, out, want={prop})
+        out.extra["end_to_end"] = e2e
+        out.require("e2e_executions", e2e.get("executions", 0), 150)
     if prop in ("C03", "C05"):
         # end-to-end slice: the same figures through the real runner (options set by attribute-equivalent entry options, groups,
         # builder, CLI and DIVAN_* variables), judged on the printed samples / iters / time cells and the invocation log
